@@ -55,6 +55,7 @@ func (c *Counter) Add(n int) int             { return 0 }
 func (c Counter) Get() int                   { return 0 }
 func (c Counter) Scale(f float32, k uint8) float64 { return 0 }
 func (c *Counter) AddAll(ns ...int) int      { return 0 }
+func (c *Counter) Is(b bool, xs ...int) bool { return b }
 func (c *Counter) Fmt(f string, xs ...int8) string { return "" }
 func (c *Counter) Mix(a int8, b float64, s string, rest ...uint16) string { return "" }
 func (c *Counter) Apply(f func(int) int) int { return 0 }
